@@ -41,16 +41,16 @@ def fault_point(name, pos, proc=None):
     if FAULT is not None and FAULT[0] == name and (
             (FAULT[1] == pos and FAULT[2] == n) or (FAULT[1] == pos + '+' and n >= FAULT[2])):
         exc = ProgError('X:%s' % key)
-        exc.proc_terminated = proc.has_terminated() if proc is not None else None
+        exc.proc_terminated = proc.has_terminated() if proc is not None and getattr(proc, '_state', None) is not None else None
         FIRED.append(exc)
         raise exc
 
 
 def _wrap(name):
     def hook(self, *args, **kwargs):
-        fault_point(name, 'before')
+        fault_point(name, 'before', self)
         getattr(super(FaultProg, self), name)(*args, **kwargs)
-        fault_point(name, 'after')
+        fault_point(name, 'after', self)
 
     hook.__name__ = name
     return hook
@@ -64,10 +64,10 @@ class FaultProg(programs.ProgBase):
 
     def _enter(self, i, args, kwargs):
         super()._enter(i, args, kwargs)
-        fault_point('step', 'entry')
+        fault_point('step', 'entry', self)
 
     def _leave(self, i):
-        fault_point('step', 'exit')
+        fault_point('step', 'exit', self)
         return super()._leave(i)
 
 
@@ -130,6 +130,10 @@ def _scenarios(prog):
         'pause0': [{'at': 0, 'act': ['pause', 'p0']}, {'at': 'q', 'act': ['play']}],
         'kill': [{'at': mid, 'act': ['kill', 'kk']}],
         'killpaused': [{'at': 0, 'act': ['pause', 'p0']}, {'at': 'q', 'act': ['kill', 'kq']}],
+        # the process is failed from outside (in the middle of a step / at the first quiescent point, e.g. while it waits): a
+        # fault in a hook of that transition must still end it EXCEPTED, closed, with the stepping returned
+        'fail': [{'at': mid, 'act': ['fail', 'ff']}],
+        'failq': [{'at': 'q', 'act': ['fail', 'fq']}],
     }
 
 
@@ -351,8 +355,9 @@ def run_case(case):
     if rec['task'] not in (['done'],):
         if not (rec['task'] == ['pending'] and not fin['terminated']):
             viol.append(V('stepping-task', 'stepping-task:%s:%s' % (rec['task'][0], sig_tail), 'stepping task ended %s' % (rec['task'],)))
-    if point == 'callback' and X.proc_terminated:
-        # a scheduled callback failing after the process terminated changes nothing (terminal states are final)
+    if point in ('callback', 'step') and X.proc_terminated:
+        # a scheduled callback (or the rest of a step) failing after the process terminated -- it was failed or killed from outside
+        # in the meantime -- changes nothing (terminal states are final)
         a, b = _summary(rec), _summary(ref)
         if a != b:
             viol.append(V('late-callback-changed-run', 'late-callback-changed-run:' + sig_tail, 'late failing callback changed the outcome: %s vs %s' % (a, b)))
